@@ -449,15 +449,12 @@ def arange(start=None, /, stop=None, step=1, *, chunks="auto", like=None, dtype=
     elem_count = 0
 
     for i, bs in enumerate(chunks[0]):
-        blockstart = start + elem_count * step
-        blockstop = start + (elem_count + bs) * step
-
         task = Task(
             (name, i),
-            partial(chunk.arange, like=meta),
-            blockstart,
-            blockstop,
+            partial(chunk.arange_block, like=meta),
+            start,
             step,
+            elem_count,
             bs,
             dtype,
         )
